@@ -13,7 +13,7 @@ import SteelVerif.C11.GenCfg
 namespace SteelVerif.C11
 
 structure DState where
-  names : List (String × Id) := []
+  names : List (String × Nat) := []
   graph : Graph := []
   cfg : Cfg := codeCfg
   cm : Coll.M Int Int := []
@@ -23,16 +23,16 @@ structure DState where
   cb : List Int := []
   ct : List Int := []
 
-def lookupName (s : DState) (n : String) : Option Id := (s.names.find? (·.1 == n)).map (·.2)
+def lookupName (s : DState) (n : String) : Option Nat := (s.names.find? (·.1 == n)).map (·.2)
 
 def parseCps (s : String) : List Nat :=
   if s == "-" || s == "" then [] else (s.splitOn ",").filterMap (·.toNat?)
 
 def cpsToString (s : String) : String := String.ofList ((parseCps s).map Char.ofNat)
 
-def lookupAllNames (s : DState) (ns : List String) : Option (List Id) := ns.mapM (lookupName s)
+def lookupAllNames (s : DState) (ns : List String) : Option (List Nat) := ns.mapM (lookupName s)
 
-def pairUp : List Id → Option (List (Id × Id))
+def pairUp : List Nat → Option (List (Nat × Nat))
   | [] => some []
   | k :: v :: rest => (pairUp rest).map ((k, v) :: ·)
   | _ => none
